@@ -119,8 +119,10 @@ Proof.
 Qed.
 
 Theorem validate_exec_factor g o ob :
-  validate_exec g o ob = known_oracle g o && wf_exec ob && forallb (field_pass g o) (efields g ob).
+  validate_exec g o ob =
+  known_oracle g o && wf_exec ob && forallb (field_pass g o) (efields g ob) && chains_known g ob.
 Proof.
+  unfold validate_exec. set (CK := chains_known g ob). clearbody CK.
   destruct ob as [cr msgs kok tk costly nonces d].
   unfold validate_exec, validate_data_eligibility, wf_exec, efields, validate_discovery.
   cbn [e_commit e_msgs e_keys_ok e_tokens e_costly e_nonces e_d].
@@ -308,11 +310,11 @@ Proof.
 Qed.
 
 Theorem accept_exec g o ob :
-  known_oracle g o = true -> wf_exec ob = true ->
+  known_oracle g o = true -> wf_exec ob = true -> chains_known g ob = true ->
   (forall cl c, In (cl, c) (efields g ob) -> designated g o c = true) ->
   validate_exec g o ob = true.
 Proof.
-  intros Hk Hw H. rewrite validate_exec_factor, Hk, Hw. cbn [andb].
+  intros Hk Hw Hck H. rewrite validate_exec_factor, Hk, Hw, Hck. cbn [andb]. rewrite andb_true_r.
   now apply fields_pass_designated.
 Qed.
 
@@ -345,7 +347,7 @@ Example accept_commit_example :
 Proof. vm_compute. repeat split. Qed.
 
 Example accept_exec_example :
-  known_oracle g_ex 0 = true /\ wf_exec eobs_full = true /\
+  known_oracle g_ex 0 = true /\ wf_exec eobs_full = true /\ chains_known g_ex eobs_full = true /\
   forallb (fun p => designated g_ex 0 (snd p)) (efields g_ex eobs_full) = true /\
   length (efields g_ex eobs_full) = 7%nat /\ validate_exec g_ex 0 eobs_full = true.
 Proof. vm_compute. repeat split. Qed.
@@ -488,7 +490,7 @@ Definition commit_prop_check (g : cfg) (retry : bool) (o : N) (ob : cobs) (v : b
   else negb v.
 Definition exec_prop_check (g : cfg) (o : N) (ob : eobs) (v : bool) : bool :=
   if is_nil (bad_fields g o (efields g ob))
-  then (if known_oracle g o && wf_exec ob then v else true)
+  then (if known_oracle g o && wf_exec ob && chains_known g ob then v else true)
   else negb v.
 (* 0, or the code of the recorded class when every non-designated field belongs to a recorded class *)
 Definition known_code (bad : list (fclass * N)) : N :=
@@ -525,7 +527,7 @@ Qed.
 Theorem exec_prop_check_sound g o ob v :
   exec_prop_check g o ob v = true ->
   ((exists cl c, In (cl, c) (efields g ob) /\ designated g o c = false) -> v = false) /\
-  (known_oracle g o = true -> wf_exec ob = true ->
+  (known_oracle g o = true -> wf_exec ob = true -> chains_known g ob = true ->
    (forall cl c, In (cl, c) (efields g ob) -> designated g o c = true) -> v = true).
 Proof.
   unfold exec_prop_check. intros H. split.
@@ -533,7 +535,7 @@ Proof.
     destruct (is_nil (bad_fields g o (efields g ob))) eqn:E.
     + rewrite (proj1 (bad_nil_iff g o _) E cl c Hin) in Hd. discriminate.
     + now destruct v.
-  - intros Hk Hw Hall. rewrite (proj2 (bad_nil_iff g o _) Hall), Hk, Hw in H. exact H.
+  - intros Hk Hw Hck Hall. rewrite (proj2 (bad_nil_iff g o _) Hall), Hk, Hw, Hck in H. exact H.
 Qed.
 
 (* outside the recorded classes the model itself satisfies the executable property *)
@@ -567,8 +569,8 @@ Theorem exec_prop_check_model g o ob :
 Proof.
   intros Hk. unfold exec_prop_check. destruct (known_code_zero_inv _ Hk) as [Hnil|[cl [c [Hin Hc]]]].
   - rewrite Hnil. cbn [is_nil].
-    destruct (known_oracle g o && wf_exec ob) eqn:E; [|reflexivity].
-    apply andb_true_iff in E. destruct E as [Hko Hw].
+    destruct (known_oracle g o && wf_exec ob && chains_known g ob) eqn:E; [|reflexivity].
+    apply andb_true_iff in E. destruct E as [E Hck]. apply andb_true_iff in E. destruct E as [Hko Hw].
     apply accept_exec; try assumption. apply bad_nil_iff. now rewrite Hnil.
   - assert (Hne : is_nil (bad_fields g o (efields g ob)) = false).
     { destruct (bad_fields g o (efields g ob)); [contradiction|reflexivity]. }
@@ -824,7 +826,7 @@ Section Honest.
 
   Lemma eobs_base_valid : validate_exec g i (eobs_base (observe_disc g i st)) = true.
   Proof.
-    unfold validate_exec, validate_data_eligibility, eobs_base.
+    unfold validate_exec, validate_data_eligibility, chains_known, eobs_base.
     cbn [e_msgs e_commit e_keys_ok e_tokens e_nonces e_costly e_d]. rewrite Hk, observe_disc_valid.
     cbn. now rewrite orb_true_r.
   Qed.
@@ -838,6 +840,15 @@ Section Honest.
     apply filter_In in H. cbn [fst] in H. destruct H as [_ ->]. apply orb_true_r.
   Qed.
 
+  Lemma read_all_messages_keys msgs c :
+    read_all_messages g i st = Ok msgs -> In c (map fst msgs) -> In c (map fst (rs_pending st)).
+  Proof.
+    unfold read_all_messages. destruct (existsb _ _); [discriminate|]. intros [= <-] H.
+    apply in_map_iff in H. destruct H as [[c' n] [<- H]]. cbn [fst].
+    apply filter_In in H. destruct H as [H _]. apply in_map_iff in H. destruct H as [[c'' l] [[= <- _] H]].
+    apply filter_In in H. destruct H as [H _]. cbn [fst]. change c'' with (fst (c'', l)). now apply in_map.
+  Qed.
+
   Lemma observe_costly_zero msgs n : observe_costly g i st msgs = Ok n -> n = 0%N.
   Proof.
     unfold observe_costly, observe_costly_unfixed. destruct (negb (reads g i (c_dest g))); [now intros [= <-]|].
@@ -845,10 +856,15 @@ Section Honest.
     now intros [= <-].
   Qed.
 
+  Lemma sources_home c : memN c (sources g) = true -> memN c (home_chains g) = true.
+  Proof. rewrite !memN_In. unfold sources. intros H. apply filter_In in H. tauto. Qed.
+
+  (* [pending_known]: the stable-home-configuration hypothesis, needed in the GetMessages phase only *)
   Theorem exec_honest_valid phase ob :
+    pending_known g st = true ->
     observe_exec g i st phase = Ok ob -> validate_exec g i ob = true.
   Proof.
-    unfold observe_exec, observe_exec_with. destruct (rs_init st); cbn [negb].
+    intros Hpk. unfold observe_exec, observe_exec_with. destruct (rs_init st); cbn [negb].
     2:{ intros [= <-]. apply eobs_base_valid. }
     destruct (N.eqb phase 0).
     { unfold observe_commit_reports_with. cbn [andb].
@@ -857,23 +873,32 @@ Section Honest.
       destruct (rs_cursed_all st); [intros [= <-]; apply eobs_base_valid|].
       destruct (rs_fail st K_REPORTS (c_dest g)); [discriminate|].
       destruct (existsb _ (rs_reports st)); [discriminate|].
-      intros [= <-]. unfold validate_exec, validate_data_eligibility.
+      intros [= <-]. unfold validate_exec, validate_data_eligibility, chains_known.
       cbn [e_msgs e_commit e_keys_ok e_tokens e_nonces e_costly e_d].
-      rewrite Hk, observe_disc_valid, (seqnums_ok_filter _ _ values_reports). cbn. now rewrite orb_true_r. }
+      rewrite Hk, observe_disc_valid, (seqnums_ok_filter _ _ values_reports). cbn [map app].
+      rewrite app_nil_r. cbn. rewrite orb_true_r. cbn [andb].
+      rewrite forallb_map. apply forallb_forall. intros p Hp. apply filter_In in Hp. destruct Hp as [_ Hp].
+      apply andb_true_iff in Hp. apply sources_home. tauto. }
     destruct (N.eqb phase 1).
     { unfold observe_messages_with.
       destruct (is_nil (rs_pending st)); [intros [= <-]; apply eobs_base_valid|].
       destruct (read_all_messages g i st) as [msgs| | |] eqn:E; cbn [rbind]; try discriminate.
       destruct (observe_costly g i st msgs) as [costly| | |] eqn:Ec; cbn [rbind]; try discriminate.
-      intros [= <-]. unfold validate_exec, validate_data_eligibility.
+      intros [= <-]. unfold validate_exec, validate_data_eligibility, chains_known.
       cbn [e_msgs e_commit e_keys_ok e_tokens e_nonces e_costly e_d].
       rewrite Hk, observe_disc_valid, values_pending, (read_all_messages_eligible msgs E),
-              (observe_costly_zero msgs costly Ec). cbn. now rewrite orb_true_r. }
+              (observe_costly_zero msgs costly Ec). cbn [nonempty_keys filter map is_nil N.eqb andb].
+      rewrite orb_true_r. cbn [andb].
+      assert (Hp : forall c, In c (map fst (rs_pending st)) -> memN c (home_chains g) = true).
+      { intros c Hc. apply in_map_iff in Hc. destruct Hc as [p [<- Hp]].
+        exact (forallb_In _ _ _ Hpk Hp). }
+      apply forallb_forall. intros c Hc. apply in_app_or in Hc. destruct Hc as [Hc|Hc]; [now apply Hp|].
+      apply in_app_or in Hc. destruct Hc as [Hc|Hc]; apply Hp; now apply (read_all_messages_keys msgs c E). }
     destruct (N.eqb phase 2); [|discriminate].
     unfold observe_filter.
     destruct (reads g i (c_dest g)) eqn:Hr; cbn [negb]; [|intros [= <-]; apply eobs_base_valid].
     destruct (existsb _ (rs_pending st)); [discriminate|].
-    intros [= <-]. unfold validate_exec, validate_data_eligibility.
+    intros [= <-]. unfold validate_exec, validate_data_eligibility, chains_known.
     cbn [e_msgs e_commit e_keys_ok e_tokens e_nonces e_costly e_d].
     now rewrite Hk, observe_disc_valid, Hr.
   Qed.
